@@ -56,7 +56,7 @@ def build_sdl(desc_i: int, def_i: int, flags: dict) -> str:
     for k, t in names.items():
         default = f" = {df[k]}" if k in df else ""
         fields.append(f"{d(ds, '  ') if k == 'i' else ''}  {k}: {t}{default}{dep_plain if k == 's' else ''}")
-    out.append(d(ds) + "input Filter {\n" + "\n".join(fields) + "\n  req: Int!\n}")
+    out.append(d(ds) + "input Filter {\n" + "\n".join(fields) + f"\n  req: Int!\n  lim2: Int! = 3{dep_plain}\n}}")
     args = ", ".join(f"{k}: {t}" + (f" = {df[k]}" if k in df else "") for k, t in names.items())
     out.append(d(ds) + "interface Node {\n" + d(ds, "  ") + "  id: ID!\n}")
     if flags["iface2"]:
@@ -66,7 +66,7 @@ def build_sdl(desc_i: int, def_i: int, flags: dict) -> str:
     else:
         impl = "implements Node"
         extra = ""
-    out.append(d(ds) + f"type User {impl} {{\n  id: ID!{extra}\n{d(ds, '  ')}  search({args}, filter: Filter{dep_plain}): [User!]{dep}\n  born: Date\n  color: Color!\n}}")
+    out.append(d(ds) + f"type User {impl} {{\n  id: ID!{extra}\n{d(ds, '  ')}  search({args}, filter: Filter{dep_plain}, lim: Int! = 10{dep}): [User!]{dep}\n  born: Date\n  color: Color!\n}}")
     out.append(f"type Bot {impl} {{ id: ID!{extra} model: String }}")
     out.append(d(ds) + "union Thing = User | Bot")
     out.append(f"type {q} {{ node(id: ID!): Node things: [Thing] }}")
